@@ -10,7 +10,12 @@ A2  modes_checksum is applied to the whole frame (all bit_len/8 bytes, in order,
 A3  the index obligations inside modes_checksum.
 A4  no error exit of the DF reader is reachable with a DF id of an address/parity format when the
     frame is complete (every payload of DF 0, 4, 5, 16, 20, 21 yields its address).
-Not decided: that the byte loop computes polynomial division (and hence the burst-error bound).
+A5  modes_checksum(frame) = remainder of frame(x) by the generator, for every 56- and 112-bit frame: the
+    symbolic expression of the result over the 7 / 14 frame bytes is built only from GF(2)-linear
+    operations (xor, shifts, constant masks, lookups in the table shown linear by T1), hence is a linear map
+    of the frame bits; it agrees with polynomial division on the zero frame and on all 56 / 112 unit
+    vectors, hence everywhere.
+Not decided: the burst-error bound (a property of the generator polynomial, not of this code).
 """
 import absint as A
 import runner
@@ -28,6 +33,106 @@ def crc_table_entry(i):
         c = ((c << 1) ^ POLY) if c & 0x800000 else (c << 1)
         c &= 0xFFFFFF
     return c
+
+
+def poly_rem(bits_value, nbits):
+    """remainder of the nbits-bit message polynomial by x^24 + ... (0x1FFF409), plain long division"""
+    g = 0x1FFF409
+    v = bits_value
+    for k in range(nbits - 1, 23, -1):
+        if v >> k & 1:
+            v ^= g << (k - 24)
+    return v & 0xFFFFFF
+
+
+def a5_linear(prog, rep, chk):
+    import terms
+    old = A.TERM_LIMIT
+    A.TERM_LIMIT = 10 ** 6
+    try:
+        for n in (7, 14):
+            E = runner.make_engine(prog, K=8)
+            atoms = [T('o', ('frame-byte', i)) for i in range(n)]
+            items = tuple(E.reg(mk_int(0, 255, 0, a)) for a in atoms)
+            cell = ('o', ('p', 'frame'))
+
+            def pre(E_, st, fr, items=items, n=n):
+                st.cells[cell] = ('S', A.const_int(n), mk_int(0, 255), items)
+            rets = runner.run_entry(E, chk, [('R', cell, (), False), A.const_int(8 * n)], pre=pre, quiet=True)
+            key = 'modes_checksum#%d-bit' % (8 * n)
+            oks = []
+            for st, v in rets:
+                r = st.resolve(E.expand(v))
+                if r != A.BOT and r[0] == 'E':
+                    for vi, fs in r[2]:
+                        if vi == 0:
+                            oks.append(E.scalar(st, fs[0]))
+                        else:
+                            oks.append(None)
+            if len(oks) != 1 or oks[0] is None or oks[0][0] != 'I' or oks[0][4] is None:
+                rep.fail('A5-polynomial-remainder', key + '#expression', chk['file'],
+                         'the checksum of a complete %d-bit frame is not a single symbolic expression of the frame bytes (%d return states)' % (8 * n, len(oks)))
+                continue
+            t = oks[0][4]
+            # 1. linear structure
+            seen = {}
+            bad = []
+
+            def lin(x, depth=0):
+                if x in seen:
+                    return
+                seen[x] = True
+                op = x[0]
+                if x in atoms:
+                    return
+                if op == 'c':
+                    return
+                if op == 'BitXor':
+                    for y in x[1:]:
+                        if y[0] == 'c' and y[1] != 0:
+                            bad.append('xor with the constant %#x' % y[1])
+                        lin(y, depth + 1)
+                elif op in ('Shl', 'Shr') and x[2][0] == 'c':
+                    lin(x[1], depth + 1)
+                elif op == 'BitAnd' and (x[2][0] == 'c' or x[1][0] == 'c'):
+                    lin(x[1] if x[2][0] == 'c' else x[2], depth + 1)
+                elif op == 'tbl' and x[1][0] == 'c':
+                    tab = E.tables.get(x[1][1])
+                    if tab is None or len(tab) != 256 or not all(tab[i] == _xor(tab[1 << k] for k in range(8) if i >> k & 1) for i in range(256)):
+                        bad.append('lookup in a table that is not GF(2)-linear')
+                    lin(x[2], depth + 1)
+                elif op == 'trunc':
+                    lin(x[1], depth + 1)
+                else:
+                    bad.append('operator %s' % op)
+            import sys
+            sys.setrecursionlimit(max(sys.getrecursionlimit(), 50000))
+            lin(t)
+            rep.check(not bad, 'A5-polynomial-remainder', key + '#linear-form', chk['file'],
+                      'the checksum expression is not built from GF(2)-linear operations only: %s' % sorted(set(bad))[:4],
+                      sample={'frame bits': 8 * n, 'distinct sub-expressions': len(seen)})
+            if bad:
+                continue
+            # 2. agreement with polynomial division on a basis
+            tables = dict(E.tables)
+            wrong = None
+            for k in [None] + list(range(8 * n)):
+                val = 0 if k is None else 1 << k
+                env = {atoms[i]: (val >> (8 * (n - 1 - i))) & 0xFF for i in range(n)}
+                env['__tables__'] = tables
+                try:
+                    got = terms.point_eval(t, env) & 0xFFFFFFFF
+                except terms.NotNormal as e:
+                    wrong = 'expression not evaluable: %s' % e
+                    break
+                want = poly_rem(val, 8 * n)
+                if got != want:
+                    wrong = 'frame with %s: checksum expression gives %#08x, polynomial division %#08x' % ('no bit set' if k is None else 'only bit %d set' % (8 * n - 1 - k), got, want)
+                    break
+            rep.check(wrong is None, 'A5-polynomial-remainder', key + '#basis', chk['file'], wrong or '',
+                      sample={'frame bits': 8 * n, 'basis vectors compared': 8 * n + 1})
+    finally:
+        A.TERM_LIMIT = old
 
 
 def run(prog, rep, tier):
@@ -147,6 +252,7 @@ def run(prog, rep, tier):
         for d in range(0, 8):
             E.gc_roots.add((d, loc))
     rets = runner.run_entry(E, msg_try)
+    a5_linear(prog, rep, chk)
     # A4: a complete frame of an address/parity format is never rejected
     if dfr is None:
         rep.missing('DF reader')
